@@ -29,7 +29,13 @@ x provider outcome for make_temp_file and download_changed, and random samples f
 exception, provider calls with the CONTENT TAG of the bytes handed over, the files left (directory, name class, '.tmp', content
 tag), the fields recorded on both sides, ignore reason, priority.
 
-`check_engine_tables(res, tier, seed)` runs both ties and returns (n_cases, disagreements); C01-C04 call `attach`.
+Part 3 (ops `y…`, Model/EngineConflict.lean + Model/EngineMore.lean): the real `handle_hash_conflict` / `handle_split_conflict` /
+`SyncState.split` (both entries compared afterwards, every escape route of a CloudException), `conflict_rename` (real
+`Provider.split`/`join`, scripted `rename` that rejects taken names), `rename_to_fix_conflict`, `_resolve_rename`,
+`handle_cloud_file_not_found_error` with a REAL parent entry in the index, `check_disjoint_create` / `_get_untrashed_peers` and
+`get_folder_file_conflict` with lists of REAL peer entries, and the other-entry loops of `mkdir_synced`.
+
+`check_engine_tables(res, tier, seed)` runs the three ties and returns (n_cases, disagreements); C01-C04 call `attach`.
 """
 import atexit
 import collections
@@ -54,7 +60,9 @@ ENG_FP = {"cloudsync/sync/manager.py": ["SyncManager._sync_one_entry", "SyncMana
                                         "SyncManager.handle_file_name_error", "SyncManager._temp_file", "SyncManager.make_temp_file",
                                         "SyncManager.download_changed", "SyncManager.upload_synced", "SyncManager._create_synced",
                                         "SyncManager.create_synced", "SyncManager.mkdir_synced", "SyncManager.unsafe_mkdir_synced",
-                                        "SyncManager.clean_temps"],
+                                        "SyncManager.clean_temps", "SyncManager.handle_hash_conflict", "SyncManager.handle_split_conflict",
+                                        "SyncManager.conflict_rename", "SyncManager.rename_to_fix_conflict", "SyncManager._resolve_rename",
+                                        "SyncManager._get_untrashed_peers", "SyncManager.check_disjoint_create", "SyncManager.get_folder_file_conflict"],
           "cloudsync/sync/state.py": ["SideState.needs_sync", "SideState.__setattr__", "SideState.clear", "SideState.uncorrupt", "SideState.set_force_sync", "SideState.clean_temp",
                                       "SyncEntry.hash_conflict", "SyncEntry.is_creation", "SyncEntry.is_deletion", "SyncEntry.is_rename",
                                       "SyncEntry.is_path_change", "SyncEntry.ignore", "SyncEntry.punt", "SyncState.updated", "SyncState.finished",
@@ -149,6 +157,8 @@ def enc_oracle(o):
 def enc_case(c):
     if c["op"].startswith("x"):
         return enc_xcase(c)
+    if c["op"].startswith("y"):
+        return enc_ycase(c)
     return "%s %s %s %s %s %s %d %s %d" % (c["op"], c["side"], enc_side(c["l"]), enc_side(c["r"]), c["ord"], c["ign"], c["prio"],
                                             enc_oracle(c["o"]), c["pc"])
 
@@ -165,6 +175,9 @@ def dec_case(line):
 
 def describe_case(c):
     """the abstract entry in words (for replays / mutation reports)"""
+    if c["op"].startswith("y"):
+        return {"method": c["op"], "changed_side": c.get("side", "-"), "LOCAL": "-", "REMOTE": "-", "ignored": c.get("ign", "-"),
+                "priority": c.get("prio", 0) / 10.0, "line": enc_ycase(c), "case": {k: v for k, v in c.items() if k != "op"}}
     if c["op"].startswith("x"):
         return {"method": c["op"], "changed_side": c["side"], "temp_dir": enc_fs(c["fs"]), "CHANGED": enc_xside(c["c"]), "SYNCED": enc_xside(c["s"]),
                 "LOCAL": "-", "REMOTE": "-", "ignored": c["ign"], "priority": c["prio"] / 10.0, "oracle": enc_xoracle(c["o"]), "line": enc_xcase(c),
@@ -312,7 +325,7 @@ class Rig:
         class RState(st.SyncState):
             def lookup_path(self_, side, path, stale=False):
                 if rig.ctx == "mkdir":
-                    return [rig.ent, rig.x.other]
+                    return [rig.ent] + ([] if getattr(rig.x.other, "discarded", False) else [rig.x.other])
                 if rig.ctx == "delete":
                     return [rig.ent, rig.other]
                 if rig.ctx == "rename":
@@ -322,7 +335,7 @@ class Rig:
                 return super().lookup_path(side, path, stale)
 
             def lookup_oid(self_, side, oid):
-                if rig.x and rig.x.mk_lookup_pending:
+                if rig.x and getattr(rig.x, "mk_lookup_pending", False):
                     rig.x.mk_lookup_pending = False
                     return rig.x.other2 if rig.x.o["alreadyDir"] else None
                 if rig.rev_active and rig.o["revOther" + "LR"[side]] == "T":
@@ -336,9 +349,17 @@ class Rig:
 
             def split(self_, ent):
                 rig.fx.append("split")
-                if rig.x:
+                if rig.x and getattr(rig.x, "fake_split", False):
                     return (ent, 1, ent, 0)      # what split does to the entry is tied by the op `split`; here only the call counts
-                return super().split(ent)
+                r = super().split(ent)
+                rig.last_split = r
+                return r
+
+            def update(self_, side, otype, oid, path=None, hash=None, exists=True, prior_oid=None, size=None, mtime=None, accurate=False):  # noqa
+                if rig.x and getattr(rig.x, "record_update", False):
+                    rig.fx.append("adopt")
+                return super().update(side, otype, oid, path=path, hash=hash, exists=exists, prior_oid=prior_oid, size=size, mtime=mtime,
+                                      accurate=accurate)
 
         class NM:
             def notify(self_, n):
@@ -508,11 +529,15 @@ class Rig:
         self.mgr = RManager(self.state, self.provs, self.translate, lambda a, b: None, NM(), sleep=(0.01, 0.01))
         self.other = Other()
         self.xrig = None
+        self.yrig = None
+        self.last_split = None
 
     def close(self):
         st = self.st
         if self.xrig is not None:
             self.xrig.close()
+        if self.yrig is not None:
+            self.yrig.close()
         st.SyncEntry.punt = self._old_punt
         st.SyncEntry.get_latest = self._old_get_latest
         st.time = self._old_time
@@ -560,6 +585,8 @@ class Rig:
             raise ex.CloudTemporaryError("scripted")
 
     def prov_rename(self, side, oid, path):
+        if self.x is not None and hasattr(self.x, "rename"):
+            return self.x.rename(side, oid, path)
         ex = self.ex
         self.fx.append("rn" + "LR"[side])
         a = self.o["ren"]
@@ -661,6 +688,10 @@ class Rig:
             if self.xrig is None:
                 self.xrig = XRig(self)
             return self.xrig.run(case)
+        if case["op"].startswith("y"):
+            if self.yrig is None:
+                self.yrig = YRig(self)
+            return self.yrig.run(case)
         mg, ex = self.mg, self.ex
         ent = self.realise(case)
         op = case["op"]
@@ -793,6 +824,7 @@ class XRig:
         self.n = 0
         self.o = None
         self.mk_lookup_pending = False
+        self.fake_split = True
         x = self
         FILE, DIRECTORY = rig.OT["f"], rig.OT["d"]
 
@@ -815,6 +847,7 @@ class XRig:
 
             def ignore(self, reason, previous_reasons=None):
                 rig.fx.append("disc")
+                self.discarded = True
         self.XOther = XOther
         IgnoreReason = type(rig.IGN["n"])
 
@@ -1152,6 +1185,329 @@ class XRig:
             rig.ctx = None
 
 
+# ---------------------------------------------------------------------------------------------------------------
+# part 3: conflict path, conflict names, the parent part of the file-not-found handler, disjoint creates, folder/file conflicts
+# (Model/EngineMore.lean, Model/EngineConflict.lean; ops `y…`).  Other entries of the state table are REAL SyncEntry objects
+# registered in the real indexes; providers are scripted.
+
+def enc_ycase(c):
+    op = c["op"]
+    B = lambda b: "T" if b else "F"
+    if op == "ycr":
+        return " ".join(["ycr", B(True), enc_str(c["path"]), B(c["present"])] + [enc_str(t) for t in c["taken"]])
+    if op == "yfix":
+        return "yfix %s %s %s %s" % (c["kind"], B(c["mine"]), B(c["other"]), B(c["temp"]))
+    if op == "yrr":
+        return "yrr %s %s" % (c["kind"], enc_side(c["s"]))
+    ent = lambda e: "%s %s %s %s %d" % (enc_side(e["l"]), enc_side(e["r"]), e["ord"], e["ign"], e["prio"])
+    if op == "yfnf":
+        par = "-" if c["parent"] is None else ent(c["parent"]).replace(" ", ",")
+        return "yfnf %s %s %s %s %s" % (c["side"], ent(c["e"]), par, B(c["parentThere"]), B(c["parentSynced"]))
+    if op == "ydj":
+        return " ".join(["ydj", c["cot"], c["sot"], B(c["info"])] + [p["ex"] + B(p["match"]) + B(p["hs"]) + B(p["ch"]) + p["ot"] for p in c["peers"]])
+    if op == "yff":
+        return " ".join(["yff"] + [p["ex"] + p["ot"] + B(p["info"]) for p in c["peers"]])
+    if op == "ymk":
+        return " ".join(["ymk", str(c["prio"])] + [o["cot"] + o["sot"] + o["cex"] + o["sex"] for o in c["others"]])
+    if op == "yhc":
+        return "yhc %s %s%s%s%s" % (ent(c["e"]), c["dl"], B(c["tempGone"]), B(c["sameHash"]), c["rc"])
+    raise HarnessError("unknown y op " + op)
+
+
+class YRig:
+    fake_split = False
+
+    def __init__(self, rig):
+        self.rig = rig
+        self.record_update = False
+        self.base = tempfile.mkdtemp(prefix="y_", dir=Rig._tmp)
+        self.case = None
+        rig_ = rig
+        self._old_ignore = rig.st.SyncEntry.ignore
+        y = self
+
+        def ignore(self_, reason, previous_reasons=(rig_.IGN["n"],)):
+            if rig_.x is y and self_ in y.index_of:
+                rig_.fx.append("ign%d" % y.index_of[self_])
+            return y._old_ignore(self_, reason, previous_reasons)
+        rig.st.SyncEntry.ignore = ignore
+        self.index_of = {}
+
+    def close(self):
+        self.rig.st.SyncEntry.ignore = self._old_ignore
+        shutil.rmtree(self.base, ignore_errors=True)
+
+    # -- building real entries ---------------------------------------------------------------------------------------------
+    def build(self, a, paths, syncpaths, oids, register=True):
+        """a real SyncEntry for the abstract entry `a` with the given current/sync path strings and ids per side"""
+        rig = self.rig
+        st = rig.st
+        state = rig.state
+        ent = st.SyncEntry(state, rig.OT[a["l"]["ot"]])
+        times = (5.0, 6.0) if a["ord"] == "T" else (6.0, 5.0)
+        for sd, key in ((0, "l"), (1, "r")):
+            x = a[key]
+            ss = ent[sd]
+            ss._otype = rig.OT[x["ot"]]
+            ss._oid = oids[sd] if x["oid"] == "T" else None
+            p = x["p"]
+            ss._path = paths[sd] if p in "ced" else None
+            ss._sync_path = {"n": None, "c": None, "s": syncpaths[sd], "e": paths[sd], "d": syncpaths[sd]}[p]
+            h = x["h"]
+            h1, h0 = (b"h1L", b"h0L") if sd == 0 else (b"h1R", b"h0R")      # the two providers have their own hash functions
+            ss._hash = h1 if h in "ced" else None
+            ss._sync_hash = {"n": None, "c": None, "s": h0, "e": h1, "d": h0}[h]
+            ss._exists = rig.EX[x["exs"][0]]
+            ss._saved_exists = None if x["exs"][1] == "-" else rig.EX[x["exs"][1]]
+            ss._changed = times[sd] if x["ch"] == "T" else None
+            ss._force_sync = x["fs"] == "T"
+            if register and ss._oid is not None:
+                state._oids[sd][ss._oid] = ent
+                if ss._path is not None:
+                    state._paths[sd].setdefault(ss._path, {})[ss._oid] = ent
+        ent._priority = a["prio"] / 10.0
+        ent._ignored = rig.IGN[a["ign"]]
+        if ent[0]._changed or ent[1]._changed:
+            state._changeset_storage.add(ent)
+        return ent
+
+    def reset(self):
+        rig = self.rig
+        rig.state.forget()
+        rig.state._last_changed_time = 0.0
+        rig.now = 1000.0
+        rig.roots = ("/L", "/R")
+        rig.fx = []
+        rig.ctx = None
+        rig.o = dict(QUIET)
+        rig.last_split = None
+        self.index_of = {}
+        self.record_update = False
+
+    # -- scripted provider (rig.x = self) ------------------------------------------------------------------------------------
+    def info_path(self, side, path):
+        c = self.case
+        op = c["op"]
+        if op == "ycr":
+            return self.rig.OInfo(otype=self.rig.OT["f"], oid="oidC", hash=b"h1", path=path) if c["present"] else None
+        if op == "yfnf":
+            self.rig.fx.append("ipar")
+            return self.rig.OInfo(otype=self.rig.OT["d"], oid="oidPARENT", hash=None, path=path) if c["parentThere"] else None
+        if op == "ydj":
+            self.rig.fx.append("ip")
+            if not c["info"]:
+                return None
+            m = [i for i, p in enumerate(c["peers"]) if p["match"]]
+            return self.rig.OInfo(otype=self.rig.OT["f"], oid=("oidP%d" % m[0]) if m else "oidNONE", hash=b"h1", path=path)
+        return None
+
+    def info_oid(self, side, oid):
+        c = self.case
+        if c["op"] == "yfnf":
+            self.rig.fx.append("ioid")
+            return self.rig.OInfo(otype=self.rig.OT["d"], oid=oid, hash=None, path=("/L", "/R")[side] if c["parentSynced"] else "/Xx")
+        if c["op"] == "yff":
+            i = int(oid[4:])
+            return self.rig.OInfo(otype=self.rig.OT["f"], oid=oid, hash=b"h1", path="/R/m") if c["peers"][i]["info"] else None
+        return None
+
+    def rename(self, side, oid, path):
+        c = self.case
+        self.tries += 1
+        base = path.rsplit("/", 1)[-1]
+        if base in c["taken"]:
+            raise self.rig.ex.CloudFileExistsError("scripted")
+        return "oidRENAMED"
+
+    def mkdirs(self, side, path):
+        self.rig.fx.append("mkdirs")
+        raise self.rig.ex.CloudTemporaryError("scripted")
+
+    def hash_data(self, side, f):
+        self.rig.fx.append("hd")
+        rep = self.rig.last_split[2]
+        return rep[0].hash if self.case["sameHash"] else b"zz"
+
+    # -- ops ---------------------------------------------------------------------------------------------------------------
+    def run(self, case):
+        rig = self.rig
+        rig.x = self
+        self.case = case
+        try:
+            self.reset()
+            return getattr(self, "op_" + case["op"])(case)
+        finally:
+            rig.x = None
+            rig.ctx = None
+            for name in ("conflict_rename", "handle_split_conflict", "resolve_conflict", "unsafe_mkdir_synced"):
+                rig.mgr.__dict__.pop(name, None)
+
+    def op_ycr(self, c):
+        self.tries = 0
+        try:
+            r = self.rig.mg.SyncManager.conflict_rename(self.rig.mgr, 0, c["path"])
+        except ValueError:
+            return "valueError"
+        if r == (None, None, None):
+            return "absent"
+        return "renamed %s %d" % (enc_str(r[2]), self.tries)
+
+    def _stub_conflict_rename(self, kind, old_oid):
+        def stub(side, path):
+            if kind == "r":
+                return old_oid, "oidNEWNAME", (path or "/L/none") + ".conflicted"
+            if kind == "a":
+                return None, None, None
+            raise ValueError("bad path")
+        self.rig.mgr.conflict_rename = stub
+
+    def op_yfix(self, c):
+        rig = self.rig
+        a = {"l": dict(_S(W_SYNCED)), "r": dict(_S(W_SYNCED)), "ord": "T", "ign": "n", "prio": 0}
+        ent = self.build(a, ("/L/m", "/R/m"), ("/L/k", "/R/k"), ("oidMINE", "oidR"))
+        other = self.build(a, ("/L/q", "/R/q"), ("/L/k", "/R/k"), ("oidOTHER", "oidR2"), register=c["other"])
+        old = "oidMINE" if c["mine"] else "oidOTHER"
+        self._stub_conflict_rename(c["kind"], old)
+        try:
+            r = rig.mg.SyncManager.rename_to_fix_conflict(rig.mgr, ent, 0, "/L/m", temp_rename=c["temp"])
+        except ValueError:
+            r = False                                   # the model folds the ValueError of conflict_rename into "no rename" (never raised by callers' paths)
+            return "F nothing"
+        tgt = "nothing"
+        for name, e in (("this", ent), ("other", other)):
+            if e[0].oid == "oidNEWNAME":
+                tgt = name + ("T" if e.ignored == rig.IGN["t"] else "F")
+        return "%s %s" % ("T" if r else "F", tgt)
+
+    def op_yrr(self, c):
+        rig = self.rig
+        a = {"l": c["s"], "r": dict(_S(W_BLANK)), "ord": "T", "ign": "n", "prio": 0}
+        ent = self.build(a, ("/L/m", "/R/m"), ("/L/k", "/R/k"), ("oidMINE", "oidR"))
+        self._stub_conflict_rename(c["kind"], "oidMINE")
+        try:
+            r = rig.mg.SyncManager._resolve_rename(rig.mgr, ent[0])
+        except ValueError:
+            return "F " + rig.abstract(ent).split()[0]
+        return "%s %s" % ("T" if r else "F", rig.abstract(ent).split()[0])
+
+    def op_yfnf(self, c):
+        rig = self.rig
+        mg, ex = rig.mg, rig.ex
+        ch = 0 if c["side"] == "L" else 1
+        ent = self.build(c["e"], ("/L/m", "/R/m"), ("/L/k", "/R/k"), ("oid0", "oid1"))
+        ent[ch]._path = ("/L/m", "/R/m")[ch]            # the handler takes dirname(sync[changed].path)
+        parent = None
+        if c["parent"] is not None:
+            parent = self.build(c["parent"], ("/L", "/R"), ("/Lold", "/Rold"), ("oidPL", "oidPR"))
+        rig.ent = ent
+        self.record_update = True
+        old_tr = rig.mgr.translate
+        rig.mgr.translate = lambda side, path: ("/L", "/R")[side] if path else None
+        try:
+            try:
+                r = mg.SyncManager.handle_cloud_file_not_found_error(rig.mgr, ch, ent, 1 - ch)
+                out = {mg.FINISHED: "F", mg.PUNT: "P", mg.REQUEUE: "R"}.get(r, "?%r" % (r,))
+            except ex.CloudTooManyRetriesError:
+                out = "!tooMany"
+            except AssertionError:
+                out = "!assertion"
+        finally:
+            rig.mgr.translate = old_tr
+        return "%s | %s | %s" % (out, ",".join(rig.fx) if rig.fx else "-", "-" if parent is None else rig.abstract(parent))
+
+    def _peer_entry(self, i, ex_, ot, hs=True, ch=False, path="/R/m"):
+        a = {"l": dict(_S(W_BLANK)), "r": dict(_S(W_SYNCED)), "ord": "T", "ign": "n", "prio": 0}
+        a["r"].update({"exs": ex_ + "-", "ot": ot, "h": "e" if hs else "d", "ch": "T" if ch else "F"})
+        e = self.build(a, ("/L/x%d" % i, path), ("/L/k", path), ("oidQ%d" % i, "oidP%d" % i))
+        self.index_of[e] = i
+        return e
+
+    def op_ydj(self, c):
+        rig = self.rig
+        a = {"l": dict(_S(W_NEW_FILE)), "r": dict(_S(W_BLANK)), "ord": "T", "ign": "n", "prio": 0}
+        a["l"]["ot"] = c["cot"]
+        a["r"]["ot"] = c["sot"]
+        ent = self.build(a, ("/L/m", "/R/m"), ("/L/k", "/R/k"), ("oid0", "oid1"))
+        peers = [self._peer_entry(i, p["ex"], p["ot"], p["hs"], p["ch"]) for i, p in enumerate(c["peers"])]
+        rig.mgr.handle_split_conflict = lambda de, ds, re_, rs: rig.fx.append("hsc%d" % self.index_of[de]) or True
+        r = rig.mg.SyncManager.check_disjoint_create(rig.mgr, ent, 0, 1, "/R/m")
+        fx = [("disc" + f[3:]) if f.startswith("ign") else f for f in rig.fx]
+        for i, pe in enumerate(peers):
+            if pe[1].oid is None and ent[1].oid == "oidP%d" % i:
+                fx.append("merge%d" % i)
+        # the model lists a merge where it happens (before a later split-conflict): with at most one matching peer there is no later one
+        return "%s | %s" % ("T" if r else "F", ",".join(fx) if fx else "-")
+
+    def op_yff(self, c):
+        rig = self.rig
+        a = {"l": dict(_S(W_NEW_DIR)), "r": dict(_S(W_BLANK)), "ord": "T", "ign": "n", "prio": 0}
+        ent = self.build(a, ("/L/m", "/R/m"), ("/L/k", "/R/k"), ("oid0", "oid1"))
+        peers = [self._peer_entry(i, p["ex"], p["ot"]) for i, p in enumerate(c["peers"])]
+        r = rig.mg.SyncManager.get_folder_file_conflict(rig.mgr, ent, "/R/m", 1)
+        gone = [str(i) for i, (pe, p) in enumerate(zip(peers, c["peers"])) if pe[1].exists == rig.st.MISSING and p["ex"] != "m"]
+        return "%s | %s" % ("~" if r is None else str(self.index_of[r]), ",".join(gone) if gone else "-")
+
+    def op_ymk(self, c):
+        rig = self.rig
+        mg, ex = rig.mg, rig.ex
+        a = {"l": dict(_S(W_NEW_DIR)), "r": dict(_S(W_BLANK)), "ord": "T", "ign": "n", "prio": c["prio"]}
+        ent = self.build(a, ("/L/m", "/R/m"), ("/L/k", "/R/k"), ("oid0", "oid1"))
+        for i, o in enumerate(c["others"]):
+            b = {"l": dict(_S(W_SYNCED)), "r": dict(_S(W_SYNCED)), "ord": "T", "ign": "n", "prio": 0}
+            b["l"].update({"ot": o["cot"], "exs": o["cex"] + "-"})
+            b["r"].update({"ot": o["sot"], "exs": o["sex"] + "-"})
+            e = self.build(b, ("/L/m", "/R/other%d" % i), ("/L/k", "/R/k"), ("oidA%d" % i, "oidB%d" % i))
+            self.index_of[e] = i
+        rig.mgr.unsafe_mkdir_synced = lambda *aa: (rig.fx.append("unsafe"), mg.SyncManager.unsafe_mkdir_synced(rig.mgr, *aa))[1]
+        try:
+            r = mg.SyncManager.mkdir_synced(rig.mgr, 0, ent, "/R/m")
+            head = "punt" if r == mg.PUNT else "?%r" % (r,)
+        except ex.CloudTemporaryError:
+            head = "proceed" + ("T" if any(f.startswith("cf") for f in rig.fx) else "F")
+        d1, d2, inside = [], [], False
+        for f in rig.fx:
+            if f == "unsafe":
+                inside = True
+            elif f.startswith("ign"):
+                (d2 if inside else d1).append(f[3:])
+        return "%s | %s | %s" % (",".join(d1) if d1 else "-", head, ",".join(d2) if d2 else "-")
+
+    def op_yhc(self, c):
+        rig = self.rig
+        mg, ex = rig.mg, rig.ex
+        ent = self.build(c["e"], ("/L/m", "/R/m"), ("/L/k", "/R/k"), ("oid0", "oid1"))
+        rig.ent = ent
+        rig.o["dl"] = {"o": "o", "f": "f", "m": "m", "t": "t", "x": "c"}[c["dl"]]
+        tf = os.path.join(self.base, "conflict.tmp")
+        if c["tempGone"]:
+            if os.path.exists(tf):
+                os.unlink(tf)
+        else:
+            with open(tf, "wb") as f:
+                f.write(b"x")
+        ent[1]._temp_file = tf
+
+        def resolve(side_states):
+            rig.fx.append("resolve")
+            if c["rc"] == "t":
+                raise ex.CloudTemporaryError("scripted")
+            if c["rc"] == "c":
+                raise ex.CloudFileNotFoundError("scripted")
+        rig.mgr.resolve_conflict = resolve
+        try:
+            r = mg.SyncManager.handle_hash_conflict(rig.mgr, ent)
+            out = "T" if r is True else "F" if r is False else "?%r" % (r,)
+        except AssertionError:
+            out = "!assertion"
+        except ex.CloudTemporaryError:
+            out = "!temp"
+        except ex.CloudException:
+            out = "!corrupt"
+        fx = ["dl" if f in ("dlL", "dlR") else f for f in rig.fx]
+        rep = rig.last_split[2] if rig.last_split else ent
+        return "%s | %s | %s | %s" % (out, ",".join(fx) if fx else "-", rig.abstract(ent), rig.abstract(rep))
+
+
 # -- x-case generation ---------------------------------------------------------------------------------------------------------
 
 def x_rand_side(rng, **kw):
@@ -1267,6 +1623,89 @@ def x_random_case(rng, op):
     return case
 
 
+# -- y-case generation ---------------------------------------------------------------------------------------------------------
+
+Y_BASES = ["a", "a.txt", "a.b.c", ".hidden", "a.", "long name.tar.gz", "x.conflicted", "x.conflicted.txt"]
+Y_FOLDERS = ["/L", "/L/d", "/L/d e/f", ""]
+
+
+def y_conflict_names(base, n):
+    i = base.find(".")
+    stem, ext = (base[:i], base[i:]) if i >= 0 else (base, "")
+    return [stem + ".conflicted" + ("" if k == 1 else str(k)) + ext for k in range(1, n + 1)]
+
+
+def y_rand_entry(rng):
+    return {"l": rand_side(rng), "r": rand_side(rng), "ord": rng.choice("TF"), "ign": rng.choice(W_IGN), "prio": rng.choice(W_PRIO)}
+
+
+def y_random_case(rng, op):
+    if op == "ycr":
+        base = rng.choice(Y_BASES)
+        folder = rng.choice(Y_FOLDERS)
+        path = (folder + "/" + base) if rng.random() < 0.93 else folder + "/"
+        cands = y_conflict_names(base, 12)
+        k = rng.choice((0, 0, 1, 2, 3, 5, 11))
+        taken = cands[:k]
+        if rng.random() < 0.3:
+            taken = [t for t in taken if rng.random() < 0.8] + [rng.choice(cands)]       # holes and later names
+        rng.shuffle(taken)
+        return {"op": op, "path": path, "present": rng.random() < 0.85, "taken": taken}
+    if op == "yfix":
+        return {"op": op, "kind": rng.choice("rrra"), "mine": rng.random() < 0.5, "other": rng.random() < 0.6, "temp": rng.random() < 0.5}
+    if op == "yrr":
+        return {"op": op, "kind": rng.choice("rrra"), "s": rand_side(rng)}
+    if op == "yfnf":
+        side = rng.choice("LR")
+        e = y_rand_entry(rng)
+        e["prio"] = rng.choice((0, 10, 20, 21, 30, 50, 51, 60, 0, 20, 30))
+        parent = None
+        if rng.random() < 0.8:
+            parent = y_rand_entry(rng)
+            k = "l" if side == "L" else "r"
+            parent[k]["oid"] = "T"
+            parent[k]["p"] = rng.choice("ced")
+            parent["ign"] = rng.choice("nnnnnt")
+            if rng.random() < 0.6:                      # the interesting region: a parent that is known and looks synced
+                parent[k].update({"exs": "e-", "ch": rng.choice("TF")})
+        return {"op": op, "side": side, "e": e, "parent": parent, "parentThere": rng.random() < 0.5, "parentSynced": rng.random() < 0.5}
+    if op == "ydj":
+        n = rng.choice((0, 1, 1, 2, 3))
+        peers = [{"ex": rng.choice("eeetmul"), "match": False, "hs": rng.random() < 0.5, "ch": rng.random() < 0.5, "ot": rng.choice("ffd")}
+                 for _ in range(n)]
+        if peers and rng.random() < 0.75:
+            rng.choice(peers)["match"] = True
+        return {"op": op, "cot": rng.choice("fffd"), "sot": rng.choice("ffd"), "info": rng.random() < 0.8, "peers": peers}
+    if op == "yff":
+        n = rng.choice((0, 1, 2, 3))
+        return {"op": op, "peers": [{"ex": rng.choice("eeetmu"), "ot": rng.choice("ffd"), "info": rng.random() < 0.6} for _ in range(n)]}
+    if op == "ymk":
+        n = rng.choice((0, 1, 2, 3))
+        return {"op": op, "prio": rng.choice((-10, 0, 1, 10)),
+                "others": [{"cot": rng.choice("fd"), "sot": rng.choice("fd"), "cex": rng.choice("eeetm"), "sex": rng.choice("eeetm")} for _ in range(n)]}
+    if op == "yhc":
+        e = y_rand_entry(rng)
+        if rng.random() < 0.85:                         # a hash conflict: both hashes and paths set, both differ from the synced ones
+            for k in "lr":
+                e[k].update({"h": rng.choice("cd"), "p": rng.choice("ced")})
+            e["l"]["oid"] = rng.choice("TTTTF")
+        return {"op": op, "e": e, "dl": rng.choice("ooooofmtx"), "tempGone": rng.random() < 0.15, "sameHash": rng.random() < 0.35,
+                "rc": rng.choice("oootc")}
+    raise HarnessError(op)
+
+
+Y_OPS = [("ycr", 4), ("yfix", 1), ("yrr", 1), ("yfnf", 5), ("ydj", 5), ("yff", 2), ("ymk", 2), ("yhc", 5)]
+
+
+def gen_ycases(tier, seed):
+    rng = rng_for(seed, "eng-more")
+    unit = 300 if tier == "quick" else 4000
+    cases = []
+    for op, w in Y_OPS:
+        cases += [y_random_case(rng, op) for _ in range(unit * w)]
+    return cases
+
+
 X_OPS = [("xup", 3), ("xcr", 4), ("xmk", 3), ("xclean", 1), ("xtup", 3), ("xtcr", 3), ("xretry", 3)]
 
 
@@ -1375,7 +1814,7 @@ def gen_cases(tier, seed):
         n = unit * w
         for i in range(n):
             cases.append(rand_case(rng, op, foc[i % len(foc)]))
-    return cases + gen_xcases(tier, seed)
+    return cases + gen_xcases(tier, seed) + gen_ycases(tier, seed)
 
 
 def run_cases(cases, rig=None):
